@@ -359,3 +359,118 @@ Proof. intros S. apply (del_spec w L [] n xs S). Qed.
 
 Lemma del_head_empty w L : Slist w L [] -> s_del_head w L = Some w.
 Proof. intros S. apply (del_last_spec w L [] S). Qed.
+
+(* ------------------------------------------------------------------ rot *)
+Lemma SSeg_cons w x b : s_rd w x = Some (hd 0 b) -> SSeg w b -> SSeg w (x :: b).
+Proof. destruct b; simpl; auto. Qed.
+
+Lemma SSeg_tl w a l : SSeg w (a :: l) -> SSeg w l.
+Proof. destruct l; simpl; tauto. Qed.
+
+Lemma rot_spec w L a b t :
+  Slist w L (a :: b :: t) ->
+  exists w', s_rot w L = Some w' /\ Slist w' L (b :: t ++ [a]) /\
+    (forall x, ~ In x (L :: a :: b :: t) -> s_rd w' x = s_rd w x) /\ (forall l, l <> L -> t_rd w' l = t_rd w l).
+Proof.
+  intros S. unfold s_rot, s_rot_body.
+  pose proof (sl_nodup _ _ _ S) as ND. pose proof (sl_nonnull _ _ _ S) as NZ.
+  rewrite (Slist_next_head w L _ S). cbn [hd].
+  assert (Ha0 : a <> 0) by (intros ->; apply NZ; right; left; reflexivity).
+  assert (Hb0 : b <> 0) by (intros ->; apply NZ; right; right; left; reflexivity).
+  replace (N.eqb a 0) with false by (symmetry; apply N.eqb_neq; exact Ha0).
+  rewrite (Slist_next_mid w L [] a b t S).
+  replace (N.eqb b 0) with false by (symmetry; apply N.eqb_neq; exact Hb0).
+  assert (HL : s_rd w L <> None) by (eapply Slist_rd; eauto; left; reflexivity).
+  destruct (s_wr_spec w L b HL) as (w1 & E1 & N1 & O1 & T1). rewrite E1.
+  rewrite T1, (sl_tail _ _ _ S). set (z := last (a :: b :: t) L).
+  assert (Hz : z = last t b) by (unfold z; rewrite !last_cons_default; reflexivity).
+  assert (Hzin : In z (b :: t)) by (rewrite Hz; apply in_last_cons).
+  assert (HLa : L <> a) by (intros ->; apply NoDup_cons_iff in ND; apply (proj1 ND); left; reflexivity).
+  assert (HLz : L <> z) by (intros E; apply NoDup_cons_iff in ND; apply (proj1 ND); right; rewrite E; exact Hzin).
+  assert (Haz : a <> z).
+  { intros E. apply NoDup_cons_iff in ND. destruct ND as [_ ND]. apply NoDup_cons_iff in ND. apply (proj1 ND).
+    rewrite E. exact Hzin. }
+  assert (Hz1 : s_rd w1 z <> None).
+  { rewrite O1 by congruence. eapply Slist_rd; eauto. right. right. exact Hzin. }
+  destruct (s_wr_spec w1 z a Hz1) as (w2 & E2 & N2 & O2 & T2). rewrite E2.
+  assert (Ha2 : s_rd w2 a <> None).
+  { rewrite O2 by exact Haz. rewrite O1 by (intros E; apply HLa; symmetry; exact E).
+    eapply Slist_rd; eauto. right. left. reflexivity. }
+  destruct (s_wr_spec w2 a 0 Ha2) as (w3 & E3 & N3 & O3 & T3). rewrite E3.
+  assert (HtL : t_rd w3 L <> None) by (rewrite T3, T2, T1, (sl_tail _ _ _ S); discriminate).
+  destruct (t_wr_spec w3 L a HtL) as (w4 & E4 & T4 & O4 & N4). rewrite E4.
+  exists w4. split; [reflexivity|].
+  assert (Hold : forall x, x <> L -> x <> z -> x <> a -> s_rd w4 x = s_rd w x).
+  { intros x H1 H2 H3. rewrite N4, O3, O2, O1; auto. }
+  assert (Hm : exists p, b :: t = p ++ [z]).
+  { rewrite Hz. destruct (snoc_cases t) as [->|(m & u & ->)]; [exists []; reflexivity|].
+    exists (b :: m). rewrite last_last. reflexivity. }
+  destruct Hm as (p & Hm).
+  split; [|split].
+  - constructor.
+    + change (L :: b :: t ++ [a]) with ((L :: b :: t) ++ [a]).
+      eapply Permutation_NoDup; [|exact ND]. change (L :: a :: b :: t) with ([L] ++ a :: (b :: t)).
+      rewrite <- Permutation_middle. cbn [app]. rewrite (Permutation_cons_append (L :: b :: t) a). reflexivity.
+    + change (L :: b :: t ++ [a]) with ((L :: b :: t) ++ [a]). intros H. apply in_app_or in H.
+      destruct H as [[H|H]|[H|[]]]; [apply NZ; left; exact H|apply NZ; right; right; exact H|congruence].
+    + change (L :: b :: t ++ [a]) with (L :: (b :: t) ++ [a]). apply SSeg_cons.
+      * cbn [app hd]. rewrite N4, O3, O2 by congruence. exact N1.
+      * rewrite Hm, <- app_assoc. cbn [app]. apply SSeg_app_iff. split.
+        -- pose proof (sl_seg _ _ _ S) as Sg. apply SSeg_tl, SSeg_tl in Sg. rewrite Hm in Sg.
+           eapply SSeg_same; [|exact Sg]. intros x Hx. rewrite removelast_last in Hx.
+           assert (Hxin : In x (b :: t)) by (rewrite Hm; apply in_or_app; left; exact Hx).
+           apply Hold.
+           ++ intros ->. apply NoDup_cons_iff in ND. apply (proj1 ND). right. exact Hxin.
+           ++ intros ->. assert (NDz : NoDup (p ++ [z])).
+              { rewrite <- Hm. apply NoDup_cons_iff in ND. destruct ND as [_ ND]. apply NoDup_cons_iff in ND. tauto. }
+              eapply NoDup_app_disj; eauto. left; reflexivity.
+           ++ intros ->. apply NoDup_cons_iff in ND. destruct ND as [_ ND]. apply NoDup_cons_iff in ND.
+              apply (proj1 ND). exact Hxin.
+        -- cbn [SSeg]. split; [|exact I]. rewrite N4, O3 by (intros E; apply Haz; symmetry; exact E). exact N2.
+    + change (b :: t ++ [a]) with ((b :: t) ++ [a]). rewrite last_last, N4. exact N3.
+    + change (b :: t ++ [a]) with ((b :: t) ++ [a]). rewrite last_last. exact T4.
+  - intros x Hx. apply Hold.
+    + intros ->. apply Hx. left. reflexivity.
+    + intros ->. apply Hx. right. right. exact Hzin.
+    + intros ->. apply Hx. right. left. reflexivity.
+  - intros l Hl. rewrite O4 by exact Hl. rewrite T3, T2. apply T1.
+Qed.
+
+(* with fewer than two nodes the repaired a_slist_rot does nothing *)
+Lemma rot_small_spec w L xs : Slist w L xs -> (length xs <= 1)%nat -> s_rot w L = Some w.
+Proof.
+  intros S Hlen. unfold s_rot. rewrite (Slist_next_head w L _ S).
+  destruct xs as [|a [|b t]]; [reflexivity| |simpl in Hlen; lia]. cbn [hd].
+  assert (Ha0 : a <> 0) by (intros ->; apply (sl_nonnull _ _ _ S); right; left; reflexivity).
+  replace (N.eqb a 0) with false by (symmetry; apply N.eqb_neq; exact Ha0).
+  pose proof (sl_end _ _ _ S) as En. cbn [last] in En. rewrite En. reflexivity.
+Qed.
+
+(* a_slist_rot as found in the pinned tree loses the only node of a one-element list *)
+Definition sw1 : sworld := match s_add_tail (s_world 1) 1 3 with Some w => w | None => s_world 1 end.
+
+Lemma sw1_list : Slist sw1 1 [3].
+Proof.
+  constructor.
+  - repeat constructor; simpl; intuition discriminate.
+  - simpl. intuition discriminate.
+  - simpl. split; [reflexivity|exact I].
+  - reflexivity.
+  - reflexivity.
+Qed.
+
+Theorem rot_orig_refuted :
+  exists w L a, Slist w L [a] /\
+    exists w', s_rot_orig w L = Some w' /\ s_rd w' L = Some 0 /\ t_rd w' L = Some a /\
+               forall xs, ~ Slist w' L xs.
+Proof.
+  exists sw1, 1, 3. split; [exact sw1_list|].
+  destruct (s_rot_orig sw1 1) as [w'|] eqn:E; [|vm_compute in E; discriminate].
+  assert (H1 : s_rd w' 1 = Some 0) by (vm_compute in E; inversion E; subst; reflexivity).
+  assert (H2 : t_rd w' 1 = Some 3) by (vm_compute in E; inversion E; subst; reflexivity).
+  exists w'. split; [reflexivity|]. split; [exact H1|]. split; [exact H2|].
+  intros xs S. pose proof (Slist_next_head w' 1 xs S) as Hh. rewrite H1 in Hh.
+  destruct xs as [|x xs].
+  - pose proof (sl_tail _ _ _ S) as Ht. cbn [last] in Ht. rewrite H2 in Ht. discriminate.
+  - cbn [hd] in Hh. inversion Hh as [Hx]. apply (sl_nonnull _ _ _ S). right. left. symmetry. exact Hx.
+Qed.
